@@ -38,9 +38,15 @@ FIXED = [
  (["C10"], "bc5e98c", "D45", "ShapelyBoundary density sampling computed the number of points from the polygon's area instead of the boundary length; found by the C10 monitor"),
  (["C10"], "128d3dc", "D46", "ShapelyPolygon.sample_grid(d=...) returned more than ceil(d*area) points; found by the C10 monitor"),
  (["C16"], "7f0510f", "D48", "DeepONetDataset_Unique with a batch size larger than the data and not a multiple of it presented only the first (batch size mod size) functions/locations; found by the C16 monitor"),
+ (["C12"], "dfa9262", "D51", "Points[i, j] / Points[i,] with only ints and fewer components than tensor axes was read by torch as an index tensor of axis 0: wrong rows and shape, __setitem__ overwrote whole slices; found by the C12 monitor"),
 ]
 
 OPEN = [
+ {"id": "KF-C12-adv-rows-multi-cols", "property": "C12", "status": "open", "design_item": "D52",
+  "match": {"kind": ["mismatch", "exception"], "deviation_class": "adv_rows_multi_cols"},
+  "what": "Points indexed with an advanced row index (list / index tensor / boolean mask) together with several columns (list, tuple or slice of names, or ':'): the row index is broadcast against the list of column numbers, giving IndexError / AssertionError or an element-wise (diagonal) selection instead of rows x columns; a single variable name works (it becomes a slice)",
+  "witness": "p = Points(torch.arange(20.).reshape(5,4), R1('x')*R2('y')*R1('t')); p[[0,2], ['x','t']] has shape (1,2) with values [0., 11.] (expected [[0,3],[8,11]]); p[torch.tensor([0,2,3]), ['x','t']] raises IndexError",
+  "why_not_fixed": "needs a two-step (rows, then columns) selection in __getitem__ and an open-mesh index in __setitem__; not a small local repair"},
  {"id": "KF-C01-abutting-seam", "property": "C01", "status": "open", "design_item": "D8",
   "match": {"kind": "seam_point", "abut": True, "target": "boundary"},
   "what": "union of operands that share an edge exactly (abutting): the shared edge is classified as boundary (on both operand boundaries) although it lies in the interior of the union; boundary samplers of the union return points on this interior seam (about a quarter of the samples for two equal rectangles)",
